@@ -10,6 +10,7 @@ package fasthttp
 // fasthttp.
 
 import (
+	"bufio"
 	"encoding/base64"
 	"encoding/json"
 	"errors"
@@ -18,6 +19,8 @@ import (
 	"sync"
 	"testing"
 	"time"
+
+	"github.com/valyala/fasthttp/fasthttputil"
 )
 
 type c20Hop struct {
@@ -43,6 +46,11 @@ type c20Beh struct {
 		Host   string `json:"host"`
 		Method string `json:"method"`
 		Max    int    `json:"max"`
+		// Authority is the authority text of the initial URL; Origin says how the initial request
+		// object comes into being: "setters", "wire" (Request.Read of raw bytes) or "server" (the
+		// ctx.Request of a live server handler, forwarded reverse-proxy style)
+		Authority string `json:"authority"`
+		Origin    string `json:"origin"`
 	} `json:"init"`
 	Hops   []c20Hop  `json:"hops"`
 	Sent   []c20Sent `json:"sent"`
@@ -53,6 +61,9 @@ type c20Beh struct {
 func (b *c20Beh) chainSig() string {
 	var sb strings.Builder
 	fmt.Fprintf(&sb, "init=%s/%s/max%d", b.Init.ID, b.Init.Method, b.Init.Max)
+	if b.Init.Origin != "" && b.Init.Origin != "setters" {
+		sb.WriteString("/" + b.Init.Origin)
+	}
 	for _, h := range b.Hops {
 		fmt.Fprintf(&sb, ",%d:%s:%s", h.Status, h.Form, h.Target)
 	}
@@ -95,6 +106,9 @@ type c20Worker struct {
 	net *clNet
 	cl  *Client
 	hcs map[string]*HostClient
+	srv *Server
+	fwd func(ctx *RequestCtx) // what the live handler does with ctx.Request
+	unparsable int
 
 	mu                        sync.Mutex
 	evals, nontrivial         int
@@ -107,8 +121,39 @@ type c20Worker struct {
 
 func c20NewWorker() *c20Worker {
 	w := &c20Worker{net: clNewNet(), hcs: map[string]*HostClient{}, byAPI: map[string]int{}}
+	w.srv = &Server{Handler: func(ctx *RequestCtx) {
+		if w.fwd != nil {
+			w.fwd(ctx)
+		}
+	}, Logger: c20NoLog{}, NoDefaultServerHeader: true}
 	w.cl = &Client{Dial: w.net.Dial, NoDefaultUserAgentHeader: true, MaxIdleConnDuration: time.Hour, ReadTimeout: 60 * time.Second}
 	return w
+}
+
+type c20NoLog struct{}
+
+func (c20NoLog) Printf(string, ...any) {}
+
+// c20RawRequest spells the initial request as bytes on the wire, credentials included.
+func c20RawRequest(b *c20Beh, hdr string) string {
+	var sb strings.Builder
+	fmt.Fprintf(&sb, "%s /d/r0 HTTP/1.1\r\nHost: %s\r\n", b.Init.Method, c20HostPort(b.Init.Authority))
+	for _, n := range c20CredNames {
+		v := "c20-secret-" + strings.ToLower(n)
+		if n == "Cookie" {
+			v = "c20sid=" + v
+		}
+		if hdr == "lower" {
+			n = strings.ToLower(n)
+		}
+		fmt.Fprintf(&sb, "%s: %s\r\n", n, v)
+	}
+	if m := b.Init.Method; m == "POST" || m == "PUT" || m == "PATCH" {
+		fmt.Fprintf(&sb, "Content-Type: text/c20\r\nContent-Length: %d\r\n\r\n%s", len(c20Payload), c20Payload)
+	} else {
+		sb.WriteString("\r\n")
+	}
+	return sb.String()
 }
 
 func c20HostPort(authority string) string {
@@ -133,6 +178,7 @@ func (w *c20Worker) hostClient(b *c20Beh) *HostClient {
 type c20Call struct {
 	api string // client.DoRedirects, hostclient.DoRedirects, client.Get, client.GetTimeout, client.GetDeadline, client.Post, hostclient.Get, hostclient.Post
 	hdr string // canon, setcookie, lower  (DoRedirects only); userinfo (helpers)
+	origin string // "", "wire", "server": how the request object handed to DoRedirects was produced
 	src string // how the caller gave the request its body (DoRedirects with POST/PUT/PATCH), see c20BodySources
 }
 
@@ -238,20 +284,59 @@ func (w *c20Worker) run(b *c20Beh, call c20Call) {
 		ReleaseArgs(args)
 		status, body = st, string(bd)
 	} else {
-		var req Request
-		var resp Response
-		req.SetRequestURI(url)
-		req.Header.SetMethod(b.Init.Method)
-		if call.src != "" {
-			c20SetBody(&req, call.src)
+		do := func(req *Request, resp *Response) error {
+			if useHC {
+				return hc.DoRedirects(req, resp, b.Init.Max)
+			}
+			return w.cl.DoRedirects(req, resp, b.Init.Max)
 		}
-		c20SetCreds(&req, call.hdr)
-		if useHC {
-			err = hc.DoRedirects(&req, &resp, b.Init.Max)
-		} else {
-			err = w.cl.DoRedirects(&req, &resp, b.Init.Max)
+		switch call.origin {
+		case "wire":
+			// the request object is what Request.Read makes of the bytes; nothing touches it
+			// through the typed API before the call
+			var req Request
+			var resp Response
+			if rerr := req.Read(bufio.NewReader(strings.NewReader(c20RawRequest(b, call.hdr)))); rerr != nil {
+				w.unparsable++
+				return
+			}
+			err = do(&req, &resp)
+			status, body = resp.StatusCode(), string(resp.Body())
+		case "server":
+			// a live server handler forwards its ctx.Request as it is
+			ran := false
+			w.fwd = func(ctx *RequestCtx) {
+				ran = true
+				var resp Response
+				err = do(&ctx.Request, &resp)
+				status, body = resp.StatusCode(), string(resp.Body())
+			}
+			pc := fasthttputil.NewPipeConns()
+			served := make(chan struct{})
+			go func() { w.srv.ServeConn(pc.Conn2()); close(served) }() //nolint:errcheck
+			c := pc.Conn1()
+			c.Write([]byte(c20RawRequest(b, call.hdr))) //nolint:errcheck
+			var rs Response
+			rs.Read(bufio.NewReader(c)) //nolint:errcheck
+			c.Close()
+			<-served
+			w.fwd = nil
+			if !ran {
+				w.unparsable++
+				return
+			}
+		default:
+			var req Request
+			var resp Response
+			req.SetRequestURI(url)
+			req.Header.SetMethod(b.Init.Method)
+			if call.src != "" {
+				c20SetBody(&req, call.src)
+			}
+			c20SetCreds(&req, call.hdr)
+			err = do(&req, &resp)
+			status, body = resp.StatusCode(), string(resp.Body())
 		}
-		status, body = resp.StatusCode(), string(resp.Body())
 	}
 	if d := time.Since(t0); d > 2*time.Second {
 		w.slow = append(w.slow, fmt.Sprintf("%v %s/%s/%s %s err=%v", d.Round(time.Millisecond), call.api, call.hdr, call.src, b.chainSig(), err))
@@ -265,6 +350,9 @@ func (w *c20Worker) judge(b *c20Beh, call c20Call, useHC bool, err error, status
 	mode := call.api + "/" + call.hdr
 	if call.src != "" {
 		mode += "/" + call.src
+	}
+	if call.origin != "" {
+		mode += "/" + call.origin
 	}
 	cs := vfRec{"api": call.api, "hdr": call.hdr, "body_source": call.src, "init": b.Init, "hops": b.Hops, "expected": b.Sent, "result": b.Result}
 	viol := func(kind, detail string) {
@@ -441,6 +529,19 @@ func c20Calls(b *c20Beh, quick bool, idx int) []c20Call {
 			}
 		}
 	}
+	if o := b.Init.Origin; o == "wire" || o == "server" {
+		// the chain's request object is not built by setters: Client and HostClient, credential
+		// names spelled canonically and in lower case on the wire (the parser normalizes them)
+		calls = calls[:0]
+		for _, api := range []string{"client.DoRedirects", "hostclient.DoRedirects"} {
+			for _, hdr := range []string{"canon", "lower"} {
+				if quick && (idx+len(calls))%2 == 1 {
+					continue
+				}
+				calls = append(calls, c20Call{api: api, hdr: hdr, origin: o})
+			}
+		}
+	}
 	// requests with a body: the way the caller supplied it rotates over chains and calls
 	if m := b.Init.Method; m == "POST" || m == "PUT" || m == "PATCH" {
 		// a body stream can be sent once only (a resend would announce a body that never
@@ -448,6 +549,10 @@ func c20Calls(b *c20Beh, quick bool, idx int) []c20Call {
 		// no redirect or the first one is a 303
 		streamOK := len(b.Hops) == 0 || b.Hops[0].Status == 303
 		for k := range calls {
+			if calls[k].origin != "" {
+				calls[k].src = "wire" // the body came with the bytes
+				continue
+			}
 			j := (idx + k) % len(c20BodySources)
 			for !streamOK && strings.HasPrefix(c20BodySources[j], "stream") {
 				j = (j + 1) % len(c20BodySources)
@@ -524,6 +629,7 @@ func TestVerifC20Redirect(t *testing.T) {
 		tot.overstrip += w.overstrip
 		tot.extraBad += w.extraBad
 		tot.badFollowed += w.badFollowed
+		tot.unparsable += w.unparsable
 		tot.slow = append(tot.slow, w.slow...)
 		tot.leaksChecked += w.leaksChecked
 		tot.trustedSeen += w.trustedSeen
@@ -536,6 +642,6 @@ func TestVerifC20Redirect(t *testing.T) {
 	}
 	vfStat(tot.evals, tot.nontrivial, vfRec{"chains": len(behs), "requests_judged": tot.leaksChecked,
 		"requests_to_trusted_hosts": tot.trustedSeen, "overstrip_requests": tot.overstrip,
-		"extra_requests_after_bad_url": tot.extraBad, "bad_url_followed_without_error": tot.badFollowed, "calls_slower_than_2s": tot.slow, "by_api": tot.byAPI})
+		"extra_requests_after_bad_url": tot.extraBad, "bad_url_followed_without_error": tot.badFollowed, "initial_request_unparsable": tot.unparsable, "calls_slower_than_2s": tot.slow, "by_api": tot.byAPI})
 	vfDone()
 }
